@@ -6,13 +6,13 @@ from bv import ir, observe
 ID = "C05"
 LEVEL = "exploration"
 WIDTHS = list(range(1, 18)) + [24, 32, 64]
-SPELL = ["big", "little", "network", "local", "None/class-big", "None/class-little", "None/no-option"]
+SPELL = ["big", "little", "network", "local", "None/class-big", "None/class-little", "None/class-network", "None/class-local", "None/no-option"]
 ENGINES = {"generic": {"generate_for_pack": False, "generate_for_unpack": False},
            "vectorised": {"vectorize": True}, "non-vectorised": {"vectorize": False}}
 POSITIONS = ["alone", "before-sentinel", "after-sentinel", "between-other-order", "other-order+byte-before", "other-order+data-before",
              "in-repeated", "in-optional"]
-RULE = ("enumerated: width {1..17,24,32,64} x signed x 7 byte-order spellings (big, little, network, local, class default big / "
-        "little / absent) x 3 engines (generic loop, generated vectorised, generated non-vectorised) x 6 positions (alone, before / "
+RULE = ("enumerated: width {1..17,24,32,64} x signed x 9 byte-order spellings (big, little, network, local, class default big / "
+        "little / network / local / absent) x 3 engines (generic loop, generated vectorised, generated non-vectorised) x 6 positions (alone, before / "
         "after a 1-byte sentinel, between two ints of the other byte order, after an int of the other byte order followed by a "
         "single byte / by Data(2), as the element of .repeated(1), under .when(flag)); per configuration: ALL byte patterns for width 1 "
         "(and width 2 in the thorough tier; 4096 sampled in quick), every byte lane through all 256 values over backgrounds "
@@ -37,10 +37,8 @@ def source(n, cfgs):
     out = ["from bisturi.packet import Packet\nfrom bisturi.field import Int, Data\n\n"]
     for i, (signed, sp, eng, pos) in enumerate(cfgs):
         opts = dict(ENGINES[eng])
-        if sp == "None/class-big":
-            opts["endianness"] = "big"
-        elif sp == "None/class-little":
-            opts["endianness"] = "little"
+        if sp.startswith("None/class-"):
+            opts["endianness"] = sp[len("None/class-"):]
         e = None if sp.startswith("None") else sp
         big = ir.is_big(e, opts)
         other = "little" if big else "big"
@@ -122,7 +120,7 @@ def run_shard(shard, ctx):
             for i, cfg in enumerate(chunk):
                 signed, sp, eng, pos = cfg
                 cls = getattr(L.module, "K%d" % i)
-                opts = {"endianness": "big"} if sp == "None/class-big" else ({"endianness": "little"} if sp == "None/class-little" else {})
+                opts = {"endianness": sp[len("None/class-"):]} if sp.startswith("None/class-") else {}
                 big = ir.is_big(None if sp.startswith("None") else sp, opts)
                 pre, post = layout(pos)
                 if ctx.tier == "thorough":
@@ -210,7 +208,7 @@ def replay(case, ctx):
         cls = getattr(L.module, case["cls"])
         n, signed = case["width"], case["signed"]
         sp = case["spelling"]
-        opts = {"endianness": "big"} if sp == "None/class-big" else ({"endianness": "little"} if sp == "None/class-little" else {})
+        opts = {"endianness": sp[len("None/class-"):]} if sp.startswith("None/class-") else {}
         big = ir.is_big(None if sp.startswith("None") else sp, opts)
         pre, post = layout(case["position"])
         ctx.ev()
